@@ -10,49 +10,50 @@ use vh_lite::{read_cases, drive, drive_group, quiet_panics, Out};
 
 mod tc_left__par;
 mod tc_left__src1;
-mod tc_left__perm2;
-mod tc_nonlin__pari;
-mod tc_nonlin__u64;
-mod mutual__mrt;
-mod mutual__runpar;
-mod mutual__strpar;
-mod scc_chain__ren;
-mod consts__ser;
-mod repeated__ren;
-mod three_dyn__to;
-mod three_dyn__strpar;
-mod conds__mrt;
-mod conds__runpar;
-mod expr_args__pari;
-mod multi_head__pari;
-mod facts__par;
-mod facts__srcto;
-mod facts__permpar;
-mod opt_cols__mrt;
-mod opt_cols__runpar;
-mod same_gen__to;
-mod same_gen__strpar;
-mod not_reorderable__ren;
-mod pre_join_rec__perm2;
-mod two_inputs__run;
-mod two_inputs__init;
-mod two_inputs__u64;
-mod ternary__perm1;
-mod bound_mix__par;
-mod bound_mix__strpar;
-mod join_chain__str;
-mod reach__pari;
-mod self_join3__pari;
-mod lag_right__ren;
-mod lag_left__to;
-mod lag_mid__par;
-mod lag_mid__strpar;
-mod multi_head_rec__pari;
-mod sp_dual__to;
-mod sp_dual__srcto;
-mod sp_dual__permpar;
-mod longest_capped__pari;
-mod set_reach__run;
+mod tc_left__perm1;
+mod tc_nonlin__par;
+mod tc_nonlin__str;
+mod mutual__run;
+mod mutual__redecl;
+mod mutual__str;
+mod scc_chain__perm1;
+mod diamond__par;
+mod repeated__perm1;
+mod three_dyn__par;
+mod three_dyn__str;
+mod conds__pari;
+mod conds__srcred;
+mod conds__permpar;
+mod count_up__topar;
+mod multi_head__ren;
+mod facts__src0;
+mod facts__srcpar;
+mod opt_cols__ser;
+mod opt_cols__src2;
+mod cartesian__par;
+mod same_gen__perm2;
+mod not_reorderable__pari;
+mod pre_join_rec__par;
+mod two_inputs__ser;
+mod two_inputs__src0;
+mod two_inputs__srcpar;
+mod wild__ser;
+mod ternary__ren;
+mod bound_mix__perm1;
+mod join_chain__par;
+mod join_chain__strpar;
+mod reach__topar;
+mod lag_right__par;
+mod lag_right__str;
+mod lag_three__ser;
+mod lag_mid__perm1;
+mod lag_late_delta__par;
+mod multi_head_rec__topar;
+mod sp_dual__run;
+mod sp_dual__redecl;
+mod sp_weighted__ser;
+mod longest_capped__to;
+mod set_reach__mrt;
 mod set_reach__init;
 mod cp__ser;
 mod lex_lat__ser;
@@ -60,101 +61,104 @@ mod lat_two_keys__pari;
 mod lat_pre_join__pari;
 mod lat_val_bound__pari;
 mod lat_input__gen;
-mod lat_input__srcpar;
-mod count_paths__gen;
-mod count_paths__srcpar;
-mod neg_basic__gen;
-mod neg_basic__srcpar;
-mod agg_minmaxsum__par;
-mod agg_lattice__par;
-mod neg_rec_after__par;
-mod agg_empty__par;
-mod agg_empty_rel__topar;
-mod agg_pre_join__pari;
-mod disj__gen;
-mod disj__srcpar;
-mod disj_nested__par;
-mod pat_args__exppar;
-mod multi_head_disj__pari;
-mod mac_basic__ser;
-mod mac_basic__src0;
-mod mac_basic__exp;
-mod mac_nested__par;
-mod mac_gensym_disj__exppar;
-mod stress_lat__pari;
-mod rnd_core_02__par;
-mod rnd_core_05__ser;
-mod rnd_core_07__pari;
-mod rnd_core_10__par;
-mod rnd_core_13__ser;
-mod rnd_core_15__pari;
-mod rnd_core_18__par;
-mod rnd_core_21__ser;
-mod rnd_core_23__pari;
-mod rnd_core_26__par;
-mod rnd_core_29__ser;
-mod rnd_agg_01__pari;
-mod rnd_agg_04__par;
-mod rnd_agg_07__ser;
-mod rnd_agg_09__pari;
-mod rnd_agg_12__par;
-mod rnd_agg_15__ser;
-mod rnd_prec_02__ser;
-mod rnd_prec_03__to;
-mod rnd_prec_05__par;
-mod rnd_prec_06__topar;
-mod rnd_prec_08__pari;
-mod rnd_prea_02__pari;
-mod rnd_prea_05__par;
-mod rnd_prea_08__ser;
+mod lat_input__runpar;
+mod count_paths__mrt;
+mod count_paths__init;
+mod neg_basic__run;
+mod neg_basic__redecl;
+mod neg_basic__exp;
+mod agg_depth__to;
+mod agg_user__par;
+mod agg_bound_mix__par;
+mod agg_empty_rel__par;
+mod agg_const_args__exppar;
+mod disj__topar;
+mod disj__srcred;
+mod disj__permpar;
+mod pat_args__ser;
+mod rep_expr__exp;
+mod neg_in_disj__par;
+mod mac_basic__topar;
+mod mac_basic__srcred;
+mod mac_capture__par;
+mod mac_nested__exppar;
+mod mac_local_names__pari;
+mod mac_disj__ser;
+mod stress_rel__ser;
+mod rnd_core_02__pari;
+mod rnd_core_05__par;
+mod rnd_core_08__ser;
+mod rnd_core_10__pari;
+mod rnd_core_13__par;
+mod rnd_core_16__ser;
+mod rnd_core_18__pari;
+mod rnd_core_21__par;
+mod rnd_core_24__ser;
+mod rnd_core_26__pari;
+mod rnd_core_29__par;
+mod rnd_agg_02__ser;
+mod rnd_agg_04__pari;
+mod rnd_agg_07__par;
+mod rnd_agg_10__ser;
+mod rnd_agg_12__pari;
+mod rnd_agg_15__par;
+mod rnd_prec_02__par;
+mod rnd_prec_03__topar;
+mod rnd_prec_05__pari;
+mod rnd_prec_07__ser;
+mod rnd_prec_08__to;
+mod rnd_prea_03__ser;
+mod rnd_prea_05__pari;
+mod rnd_prea_08__par;
 
 fn lookup(name: &str) -> fn() -> Box<dyn Driven> {
    match name {
       "tc_left__par" => tc_left__par::make,
       "tc_left__src1" => tc_left__src1::make,
-      "tc_left__perm2" => tc_left__perm2::make,
-      "tc_nonlin__pari" => tc_nonlin__pari::make,
-      "tc_nonlin__u64" => tc_nonlin__u64::make,
-      "mutual__mrt" => mutual__mrt::make,
-      "mutual__runpar" => mutual__runpar::make,
-      "mutual__strpar" => mutual__strpar::make,
-      "scc_chain__ren" => scc_chain__ren::make,
-      "consts__ser" => consts__ser::make,
-      "repeated__ren" => repeated__ren::make,
-      "three_dyn__to" => three_dyn__to::make,
-      "three_dyn__strpar" => three_dyn__strpar::make,
-      "conds__mrt" => conds__mrt::make,
-      "conds__runpar" => conds__runpar::make,
-      "expr_args__pari" => expr_args__pari::make,
-      "multi_head__pari" => multi_head__pari::make,
-      "facts__par" => facts__par::make,
-      "facts__srcto" => facts__srcto::make,
-      "facts__permpar" => facts__permpar::make,
-      "opt_cols__mrt" => opt_cols__mrt::make,
-      "opt_cols__runpar" => opt_cols__runpar::make,
-      "same_gen__to" => same_gen__to::make,
-      "same_gen__strpar" => same_gen__strpar::make,
-      "not_reorderable__ren" => not_reorderable__ren::make,
-      "pre_join_rec__perm2" => pre_join_rec__perm2::make,
-      "two_inputs__run" => two_inputs__run::make,
-      "two_inputs__init" => two_inputs__init::make,
-      "two_inputs__u64" => two_inputs__u64::make,
-      "ternary__perm1" => ternary__perm1::make,
-      "bound_mix__par" => bound_mix__par::make,
-      "bound_mix__strpar" => bound_mix__strpar::make,
-      "join_chain__str" => join_chain__str::make,
-      "reach__pari" => reach__pari::make,
-      "self_join3__pari" => self_join3__pari::make,
-      "lag_right__ren" => lag_right__ren::make,
-      "lag_left__to" => lag_left__to::make,
-      "lag_mid__par" => lag_mid__par::make,
-      "lag_mid__strpar" => lag_mid__strpar::make,
-      "multi_head_rec__pari" => multi_head_rec__pari::make,
-      "sp_dual__to" => sp_dual__to::make,
-      "sp_dual__srcto" => sp_dual__srcto::make,
-      "sp_dual__permpar" => sp_dual__permpar::make,
-      "longest_capped__pari" => longest_capped__pari::make,
-      "set_reach__run" => set_reach__run::make,
+      "tc_left__perm1" => tc_left__perm1::make,
+      "tc_nonlin__par" => tc_nonlin__par::make,
+      "tc_nonlin__str" => tc_nonlin__str::make,
+      "mutual__run" => mutual__run::make,
+      "mutual__redecl" => mutual__redecl::make,
+      "mutual__str" => mutual__str::make,
+      "scc_chain__perm1" => scc_chain__perm1::make,
+      "diamond__par" => diamond__par::make,
+      "repeated__perm1" => repeated__perm1::make,
+      "three_dyn__par" => three_dyn__par::make,
+      "three_dyn__str" => three_dyn__str::make,
+      "conds__pari" => conds__pari::make,
+      "conds__srcred" => conds__srcred::make,
+      "conds__permpar" => conds__permpar::make,
+      "count_up__topar" => count_up__topar::make,
+      "multi_head__ren" => multi_head__ren::make,
+      "facts__src0" => facts__src0::make,
+      "facts__srcpar" => facts__srcpar::make,
+      "opt_cols__ser" => opt_cols__ser::make,
+      "opt_cols__src2" => opt_cols__src2::make,
+      "cartesian__par" => cartesian__par::make,
+      "same_gen__perm2" => same_gen__perm2::make,
+      "not_reorderable__pari" => not_reorderable__pari::make,
+      "pre_join_rec__par" => pre_join_rec__par::make,
+      "two_inputs__ser" => two_inputs__ser::make,
+      "two_inputs__src0" => two_inputs__src0::make,
+      "two_inputs__srcpar" => two_inputs__srcpar::make,
+      "wild__ser" => wild__ser::make,
+      "ternary__ren" => ternary__ren::make,
+      "bound_mix__perm1" => bound_mix__perm1::make,
+      "join_chain__par" => join_chain__par::make,
+      "join_chain__strpar" => join_chain__strpar::make,
+      "reach__topar" => reach__topar::make,
+      "lag_right__par" => lag_right__par::make,
+      "lag_right__str" => lag_right__str::make,
+      "lag_three__ser" => lag_three__ser::make,
+      "lag_mid__perm1" => lag_mid__perm1::make,
+      "lag_late_delta__par" => lag_late_delta__par::make,
+      "multi_head_rec__topar" => multi_head_rec__topar::make,
+      "sp_dual__run" => sp_dual__run::make,
+      "sp_dual__redecl" => sp_dual__redecl::make,
+      "sp_weighted__ser" => sp_weighted__ser::make,
+      "longest_capped__to" => longest_capped__to::make,
+      "set_reach__mrt" => set_reach__mrt::make,
       "set_reach__init" => set_reach__init::make,
       "cp__ser" => cp__ser::make,
       "lex_lat__ser" => lex_lat__ser::make,
@@ -162,53 +166,55 @@ fn lookup(name: &str) -> fn() -> Box<dyn Driven> {
       "lat_pre_join__pari" => lat_pre_join__pari::make,
       "lat_val_bound__pari" => lat_val_bound__pari::make,
       "lat_input__gen" => lat_input__gen::make,
-      "lat_input__srcpar" => lat_input__srcpar::make,
-      "count_paths__gen" => count_paths__gen::make,
-      "count_paths__srcpar" => count_paths__srcpar::make,
-      "neg_basic__gen" => neg_basic__gen::make,
-      "neg_basic__srcpar" => neg_basic__srcpar::make,
-      "agg_minmaxsum__par" => agg_minmaxsum__par::make,
-      "agg_lattice__par" => agg_lattice__par::make,
-      "neg_rec_after__par" => neg_rec_after__par::make,
-      "agg_empty__par" => agg_empty__par::make,
-      "agg_empty_rel__topar" => agg_empty_rel__topar::make,
-      "agg_pre_join__pari" => agg_pre_join__pari::make,
-      "disj__gen" => disj__gen::make,
-      "disj__srcpar" => disj__srcpar::make,
-      "disj_nested__par" => disj_nested__par::make,
-      "pat_args__exppar" => pat_args__exppar::make,
-      "multi_head_disj__pari" => multi_head_disj__pari::make,
-      "mac_basic__ser" => mac_basic__ser::make,
-      "mac_basic__src0" => mac_basic__src0::make,
-      "mac_basic__exp" => mac_basic__exp::make,
-      "mac_nested__par" => mac_nested__par::make,
-      "mac_gensym_disj__exppar" => mac_gensym_disj__exppar::make,
-      "stress_lat__pari" => stress_lat__pari::make,
-      "rnd_core_02__par" => rnd_core_02__par::make,
-      "rnd_core_05__ser" => rnd_core_05__ser::make,
-      "rnd_core_07__pari" => rnd_core_07__pari::make,
-      "rnd_core_10__par" => rnd_core_10__par::make,
-      "rnd_core_13__ser" => rnd_core_13__ser::make,
-      "rnd_core_15__pari" => rnd_core_15__pari::make,
-      "rnd_core_18__par" => rnd_core_18__par::make,
-      "rnd_core_21__ser" => rnd_core_21__ser::make,
-      "rnd_core_23__pari" => rnd_core_23__pari::make,
-      "rnd_core_26__par" => rnd_core_26__par::make,
-      "rnd_core_29__ser" => rnd_core_29__ser::make,
-      "rnd_agg_01__pari" => rnd_agg_01__pari::make,
-      "rnd_agg_04__par" => rnd_agg_04__par::make,
-      "rnd_agg_07__ser" => rnd_agg_07__ser::make,
-      "rnd_agg_09__pari" => rnd_agg_09__pari::make,
-      "rnd_agg_12__par" => rnd_agg_12__par::make,
-      "rnd_agg_15__ser" => rnd_agg_15__ser::make,
-      "rnd_prec_02__ser" => rnd_prec_02__ser::make,
-      "rnd_prec_03__to" => rnd_prec_03__to::make,
-      "rnd_prec_05__par" => rnd_prec_05__par::make,
-      "rnd_prec_06__topar" => rnd_prec_06__topar::make,
-      "rnd_prec_08__pari" => rnd_prec_08__pari::make,
-      "rnd_prea_02__pari" => rnd_prea_02__pari::make,
-      "rnd_prea_05__par" => rnd_prea_05__par::make,
-      "rnd_prea_08__ser" => rnd_prea_08__ser::make,
+      "lat_input__runpar" => lat_input__runpar::make,
+      "count_paths__mrt" => count_paths__mrt::make,
+      "count_paths__init" => count_paths__init::make,
+      "neg_basic__run" => neg_basic__run::make,
+      "neg_basic__redecl" => neg_basic__redecl::make,
+      "neg_basic__exp" => neg_basic__exp::make,
+      "agg_depth__to" => agg_depth__to::make,
+      "agg_user__par" => agg_user__par::make,
+      "agg_bound_mix__par" => agg_bound_mix__par::make,
+      "agg_empty_rel__par" => agg_empty_rel__par::make,
+      "agg_const_args__exppar" => agg_const_args__exppar::make,
+      "disj__topar" => disj__topar::make,
+      "disj__srcred" => disj__srcred::make,
+      "disj__permpar" => disj__permpar::make,
+      "pat_args__ser" => pat_args__ser::make,
+      "rep_expr__exp" => rep_expr__exp::make,
+      "neg_in_disj__par" => neg_in_disj__par::make,
+      "mac_basic__topar" => mac_basic__topar::make,
+      "mac_basic__srcred" => mac_basic__srcred::make,
+      "mac_capture__par" => mac_capture__par::make,
+      "mac_nested__exppar" => mac_nested__exppar::make,
+      "mac_local_names__pari" => mac_local_names__pari::make,
+      "mac_disj__ser" => mac_disj__ser::make,
+      "stress_rel__ser" => stress_rel__ser::make,
+      "rnd_core_02__pari" => rnd_core_02__pari::make,
+      "rnd_core_05__par" => rnd_core_05__par::make,
+      "rnd_core_08__ser" => rnd_core_08__ser::make,
+      "rnd_core_10__pari" => rnd_core_10__pari::make,
+      "rnd_core_13__par" => rnd_core_13__par::make,
+      "rnd_core_16__ser" => rnd_core_16__ser::make,
+      "rnd_core_18__pari" => rnd_core_18__pari::make,
+      "rnd_core_21__par" => rnd_core_21__par::make,
+      "rnd_core_24__ser" => rnd_core_24__ser::make,
+      "rnd_core_26__pari" => rnd_core_26__pari::make,
+      "rnd_core_29__par" => rnd_core_29__par::make,
+      "rnd_agg_02__ser" => rnd_agg_02__ser::make,
+      "rnd_agg_04__pari" => rnd_agg_04__pari::make,
+      "rnd_agg_07__par" => rnd_agg_07__par::make,
+      "rnd_agg_10__ser" => rnd_agg_10__ser::make,
+      "rnd_agg_12__pari" => rnd_agg_12__pari::make,
+      "rnd_agg_15__par" => rnd_agg_15__par::make,
+      "rnd_prec_02__par" => rnd_prec_02__par::make,
+      "rnd_prec_03__topar" => rnd_prec_03__topar::make,
+      "rnd_prec_05__pari" => rnd_prec_05__pari::make,
+      "rnd_prec_07__ser" => rnd_prec_07__ser::make,
+      "rnd_prec_08__to" => rnd_prec_08__to::make,
+      "rnd_prea_03__ser" => rnd_prea_03__ser::make,
+      "rnd_prea_05__pari" => rnd_prea_05__pari::make,
+      "rnd_prea_08__par" => rnd_prea_08__par::make,
       _ => panic!("no such program variant in this shard: {}", name),
    }
 }
